@@ -2,6 +2,7 @@ package rt
 
 import (
 	"fmt"
+	"net/url"
 	"strings"
 
 	"verifharness/core"
@@ -532,7 +533,19 @@ func GenReq(r *core.Rand, t *Table, router string) Req {
 		}
 	}
 	req.Path = "/" + strings.Join(toks, "/")
-	if len(toks) > 0 && r.Chance(1, 7) {
+	if len(toks) >= 2 && r.Chance(1, 10) {
+		// on the wire the last separator was an escaped slash (%2F): net/http then keeps the wire form in URL.RawPath.
+		// The framework routes on the decoded URL.Path; RawPath must not change anything.
+		esc := make([]string, len(toks))
+		for i, t := range toks {
+			esc[i] = url.PathEscape(t)
+		}
+		n := len(esc)
+		raw := "/" + strings.Join(esc[:n-1], "/") + "%2F" + esc[n-1]
+		if u, err := url.PathUnescape(raw); err == nil && u == req.Path {
+			req.RawPath = raw
+		}
+	} else if len(toks) > 0 && r.Chance(1, 7) {
 		req.Path += "/"
 	}
 	return req
